@@ -184,6 +184,7 @@ class Interp:
         self.overrides: dict = {}  # name -> _PyCall / value: stubs for callees outside the interpreted modules
         self.obj_classes: dict[str, str] = {}  # class name -> module name, for sample objects of non-LNodes classes
         self.ctx: list = []  # module context of the function being interpreted (name resolution follows its imports)
+        self.modconsts: dict = {}  # module-level literal containers, one object per interpreter
         self.depth = 0
         # class-level aliases such as `__truediv__ = __div__`
         self.aliases: dict[tuple[str, str], str] = {}
@@ -224,10 +225,13 @@ class Interp:
             if isinstance(st, (ast.Assign, ast.AnnAssign)):
                 tg = st.targets if isinstance(st, ast.Assign) else [st.target]
                 if any(isinstance(t, ast.Name) and t.id == name for t in tg) and st.value is not None:
-                    try:
-                        return const_value(st.value)
-                    except ValueError:
-                        return _MISSING
+                    ck = (m.name, name)
+                    if ck not in self.modconsts:
+                        try:
+                            self.modconsts[ck] = const_value(st.value)
+                        except ValueError:
+                            return _MISSING
+                    return self.modconsts[ck]  # one object per interpreter: module-level state persists across calls
         return _MISSING
 
     def resolve_module(self, name: str):
